@@ -758,6 +758,13 @@ def _chan_errortext_ok():
     g = _src(find("gateway_base.py", "geterrortext"))
     ok = "l = format_exception(type(exc), exc, exc.__traceback__)" in g and "errortext = ''.join(l)" in g and "errortext = f'{type(exc).__name__}: {exc}'" in g
     ok = ok and "format_exception=traceback.format_exception" in g
+    # total and encodable: the fall-back of the fall-back, and the UTF-8 round trip of the result; nothing of the exception is
+    # formatted outside geterrortext on the two reporting paths
+    rets = [n for n in ast.walk(find("gateway_base.py", "geterrortext")) if isinstance(n, ast.Return)]
+    ok = ok and len(rets) == 1 and _src(rets[0]) == "return errortext.encode('utf-8', 'backslashreplace').decode('utf-8')"
+    ok = ok and "errortext = f'{type(exc).__name__}: <unprintable exception>'" in g
+    lr = _src(find("gateway_base.py", "ChannelFactory._local_receive"))
+    ok = ok and "% exc" not in lr and "{exc" not in lr and "{exc" not in _src(find("gateway_base.py", "WorkerGateway._executetask")).split("except BaseException as exc:")[1]
     e = _src(find("gateway_base.py", "WorkerGateway._executetask"))
     ok = ok and "except BaseException as exc:\n        if not channel.gateway._channelfactory.finished:\n            errortext = self._geterrortext(exc)\n            channel.close(errortext)\n            return" in _src(_Strip().visit(__import__("copy").deepcopy(find("gateway_base.py", "WorkerGateway._executetask"))))
     m = _src(find("gateway_base.py", "Message"))
